@@ -519,7 +519,7 @@ pub fn run(ctx: &Ctx, rep: &mut Report, replay: Option<&serde_json::Value>) {
     rep.assume("reference model Appendix A incl. its rule for rsync module copies (kept when attempted in this run or when a stored point lives in the module)");
     rep.assume("a run that fails inside cleanup itself is not generated");
     rep.assume("forced outcomes use the verif hook and are serialised process-wide");
-    ctx.shrink_iters.store(80, std::sync::atomic::Ordering::Relaxed);
+    ctx.shrink_iters.store(40, std::sync::atomic::Ordering::Relaxed);
     if let Some(v) = replay {
         let t: Tagged<Case> = serde_json::from_value(v.clone()).expect("replay");
         run_case(ctx, rep, &t.sub, &t.case, prop);
@@ -528,5 +528,11 @@ pub fn run(ctx: &Ctx, rep: &mut Report, replay: Option<&serde_json::Value>) {
     run_prop_par(ctx, rep, "history", ctx.tier.pick(96, 1600), 8, || genome(300).prop_map(|w| case(&w)), prop);
     if ctx.tier == Tier::Thorough {
         run_prop_par(ctx, rep, "expiry", 64, 8, || genome(300).prop_map(|w| expiry_case(&w)), prop);
+    }
+    // a run in which most histories could not be judged says nothing: infrastructure failure
+    let dropped: u64 = rep.dropped.values().sum();
+    if !rep.violated() && dropped * 2 > rep.evaluations {
+        eprintln!("C40: {} of {} histories were dropped ({:?}); no verdict", dropped, rep.evaluations, rep.dropped);
+        std::process::exit(2);
     }
 }
